@@ -59,6 +59,15 @@ def make_case(i, rng, tier):
         f = F.fault_trunc(data, o, rng, k=k)
     elif r < 0.72:
         f = (b"", dict(kind="trunc", off=0, at=0, depth=0, regions=[], cls="empty"))
+    elif r < 0.7235 and inp["root"] != model.STREAM and len(data) < 3000:
+        # a complete value with a whole file behind it (1-2 MB), delivered by a generator / iterator / file
+        n = rng.choice((70000, 1048576, 1048577 + 4096, 2 * 1048576 + 3))
+        suffix = bytes(rng.randrange(256) for _ in range(256)) * (n // 256) + b"\x00" * (n % 256)
+        case = common.mk_case(rng, inp, data + suffix, [dict(kind="append", off=len(data), depth=0, regions=[], cls="end", n=n, big=True)], perturbation=False)
+        case["tasks"][0]["source"] = rng.choice(("gen", "iter", "simfile", "counting", "bytes"))
+        case["tasks"][0]["chunks"] = [65536]
+        case["input"].pop("orig", None)
+        return case
     else:
         f = F.fault_append(data, o, rng)
     if f is None:
